@@ -225,21 +225,41 @@ structure Exported (n : NodeRec) (ps eps : List Point) : Prop where
   eok : ∀ p ∈ eps, RowOk p ∧ p.type ≠ nodeTypeT
   eu : IdUnique eps
 
-/-- the edge rows the store holds after the import: the exported ones, or a single tombstone-0 point -/
+/-- stored edge rows carry the tombstone point (key "0") -/
+def hasTombE (l : List Point) : Bool := l.any (fun p => p.type == tombstoneT && p.key == zeroKey)
+
+/-- the edge rows the store holds after the import: the exported ones, plus a tombstone-0 point when they carry none -/
 def storedE (eps : List Point) (now : Int) : List Point :=
-  if (eps.filter keepE).isEmpty then [{ type := tombstoneT, key := zeroKey, time := now }] else eps.filter keepE
+  eps.filter keepE ++ (if hasTombE (eps.filter keepE) then [] else [{ type := tombstoneT, key := zeroKey, time := now }])
 
 theorem export_storedE (eps : List Point) (now : Int) : exportEdgePts (storedE eps now) = exportEdgePts eps := by
   unfold storedE
-  split
-  · rename_i h
-    have h0 : eps.filter keepE = [] := by simpa using h
-    rw [exportEdgePts_eq, exportEdgePts_eq, h0]
-    rfl
-  · rw [exportEdgePts_eq, exportEdgePts_eq, List.filter_filter]
+  rw [exportEdgePts_eq, exportEdgePts_eq, List.filter_append, List.filter_filter]
+  have h1 : (eps.filter (fun a => keepE a && keepE a)) = eps.filter keepE := by
+    apply List.filter_congr; intro p _; simp
+  have h2 : (if hasTombE (eps.filter keepE) then ([] : List Point) else [{ type := tombstoneT, key := zeroKey, time := now }]).filter keepE = [] := by
+    split
+    · rfl
+    · rfl
+  rw [h1, h2, List.append_nil]
+
+theorem hasTomb_blank (k : List Point) (hk : ∀ p ∈ k, p.key ≠ []) : hasTomb (k.map blankKey) = hasTombE k := by
+  induction k with
+  | nil => rfl
+  | cons p k ih =>
+    have ihk := ih (fun q hq => hk q (List.mem_cons_of_mem _ hq))
+    have hp := hk p (List.mem_cons_self ..)
+    unfold hasTomb hasTombE at *
+    simp only [List.map_cons, List.any_cons, ihk, blankKey_type]
     congr 1
-    apply List.filter_congr
-    intro p _; simp
+    congr 1
+    unfold blankKey
+    by_cases hz : p.key = zeroKey
+    · simp [hz]
+    · rw [if_neg hz]
+      have h1 : (p.key == []) = false := by simpa using hp
+      have h2 : (p.key == zeroKey) = false := by simpa using hz
+      rw [h1, h2]; rfl
 
 theorem idUnique_sublist {a b : List Point} (h : a.Sublist b) (hu : IdUnique b) : IdUnique a := List.Pairwise.sublist h hu
 
@@ -267,50 +287,58 @@ theorem sendNode_fresh (st : St) (n : NodeRec) (ps eps : List Point) (now : Int)
   -- the edge points
   have hK : n.epts = (eps.filter keepE).map blankKey := by rw [hex.epts, exportEdgePts_eq]
   have hKok : ∀ p ∈ eps.filter keepE, RowOk p := fun p hp => (hex.eok p (List.mem_filter.mp hp).1).1
-  have hsent : (((if n.epts.isEmpty then [({ type := tombstoneT, time := now } : Point)] else n.epts.map (stamp now)) ++
+  have hK0 : ∀ p ∈ eps.filter keepE, p.key ≠ [] := fun p hp => (hKok p hp).1
+  have hsent : ((n.epts.map (stamp now) ++ (if hasTomb n.epts then [] else [({ type := tombstoneT, time := now } : Point)]) ++
       [({ type := nodeTypeT, text := n.typ, time := now } : Point)]).map normPoint) =
       storedE eps now ++ [({ type := nodeTypeT, key := zeroKey, text := n.typ, time := now } : Point)] := by
-    rw [List.map_append]
+    rw [List.map_append, List.map_append]
     congr 1
     unfold storedE
-    rw [hK]
-    by_cases he : (eps.filter keepE).isEmpty = true
-    · have h0 : eps.filter keepE = [] := by simpa using he
-      rw [h0]
-      rfl
-    · have : ((eps.filter keepE).map blankKey).isEmpty = false := by
-        cases hc : eps.filter keepE with
-        | nil => rw [hc] at he; simp at he
-        | cons _ _ => rfl
-      rw [this, if_neg he]
-      simp only [Bool.false_eq_true, if_false]
-      exact rows_back now _ hKok
+    rw [hK, hasTomb_blank _ hK0, rows_back now _ hKok]
+    congr 1
+    split <;> rfl
   have hsnt : ∀ a ∈ storedE eps now, a.type ≠ nodeTypeT := by
     intro a ha
     unfold storedE at ha
-    split at ha
-    · simp only [List.mem_singleton] at ha; subst ha; show tombstoneT ≠ nodeTypeT; decide
+    rcases List.mem_append.mp ha with ha | ha
     · exact (hex.eok a (List.mem_filter.mp ha).1).2
+    · split at ha
+      · cases ha
+      · simp only [List.mem_singleton] at ha; subst ha; show tombstoneT ≠ nodeTypeT; decide
   have hsu : IdUnique (storedE eps now ++ [({ type := nodeTypeT, key := zeroKey, text := n.typ, time := now } : Point)]) := by
     unfold IdUnique
     rw [List.pairwise_append]
     refine ⟨?_, List.pairwise_singleton _ _, ?_⟩
     · unfold storedE
-      split
-      · exact List.pairwise_singleton _ _
-      · exact idUnique_sublist List.filter_sublist hex.eu
+      rw [List.pairwise_append]
+      refine ⟨idUnique_sublist List.filter_sublist hex.eu, ?_, ?_⟩
+      · split
+        · exact List.Pairwise.nil
+        · exact List.pairwise_singleton _ _
+      · intro a ha b hb
+        split at hb
+        · cases hb
+        · rename_i hnt
+          simp only [List.mem_singleton] at hb
+          subst hb
+          have hnt' : hasTombE (eps.filter keepE) = false := by simpa using hnt
+          unfold hasTombE at hnt'
+          rw [List.any_eq_false] at hnt'
+          have := hnt' a ha
+          simpa [sameId] using this
     · intro a ha b hb
       simp only [List.mem_singleton] at hb
       subst hb
       have := hsnt a ha
       simp [sameId, this]
-  have hnan2 : ((if n.epts.isEmpty then [({ type := tombstoneT, time := now } : Point)] else n.epts.map (stamp now)) ++
+  have hnan2 : (n.epts.map (stamp now) ++ (if hasTomb n.epts then [] else [({ type := tombstoneT, time := now } : Point)]) ++
       [({ type := nodeTypeT, text := n.typ, time := now } : Point)]).any (fun p => isNaN p.value) = false := by
-    rw [List.any_append, Bool.or_eq_false_iff]
-    refine ⟨?_, by simp only [List.any_cons, List.any_nil, Bool.or_false]; decide⟩
-    split
-    · simp only [List.any_cons, List.any_nil, Bool.or_false]; decide
+    rw [List.any_append, List.any_append, Bool.or_eq_false_iff, Bool.or_eq_false_iff]
+    refine ⟨⟨?_, ?_⟩, by simp only [List.any_cons, List.any_nil, Bool.or_false]; decide⟩
     · rw [hK]; exact rows_no_nan now _ hKok
+    · split
+      · rfl
+      · simp only [List.any_cons, List.any_nil, Bool.or_false]; decide
   have hf1 : (storedE eps now ++ [({ type := nodeTypeT, key := zeroKey, text := n.typ, time := now } : Point)]).filter
       (fun p => p.type == nodeTypeT) = [({ type := nodeTypeT, key := zeroKey, text := n.typ, time := now } : Point)] := by
     rw [List.filter_append]
@@ -357,7 +385,7 @@ theorem sendNode_fresh (st : St) (n : NodeRec) (ps eps : List Point) (now : Int)
     simp only []
     rw [if_neg hid, if_neg (by intro h; rcases h with h | h; exact hp1 h; exact hp2 h)]
     show (match nodePoints st n.id (n.pts.map (stamp now)) with
-      | .ok st1 => edgePoints st1 n.id n.parent ((if n.epts.isEmpty then [({ type := tombstoneT, time := now } : Point)] else n.epts.map (stamp now)) ++
+      | .ok st1 => edgePoints st1 n.id n.parent (n.epts.map (stamp now) ++ (if hasTomb n.epts then [] else [({ type := tombstoneT, time := now } : Point)]) ++
           [({ type := nodeTypeT, text := n.typ, time := now } : Point)])
       | e => e) = _
     rw [hnp]
@@ -433,16 +461,26 @@ theorem tombX_map_blank (l : List Point) (h : ∀ p ∈ l, p.key ≠ []) : tombX
   | none => rfl
   | some p => simp [blankKey_value]
 
+theorem tombE_append_none (k : List Point) (now : Int) (h : hasTombE k = false) :
+    tombE (k ++ [{ type := tombstoneT, key := zeroKey, time := now }]) = tombE k := by
+  unfold tombE
+  unfold hasTombE at h
+  rw [List.any_eq_false] at h
+  have hnone : k.find? (fun p => p.type == tombstoneT && p.key == zeroKey) = none := by
+    rw [List.find?_eq_none]
+    intro a ha
+    simpa using h a ha
+  rw [List.find?_append, hnone]
+  rfl
+
 theorem tomb_storedE (eps : List Point) (now : Int) (hok : ∀ p ∈ eps, RowOk p) :
     tombE (storedE eps now) = tombX (exportEdgePts eps) := by
   rw [exportEdgePts_eq, tombX_map_blank _ (fun p hp => (hok p (List.mem_filter.mp hp).1).1)]
   unfold storedE
   split
+  · rw [List.append_nil]
   · rename_i h
-    have h0 : eps.filter keepE = [] := by simpa using h
-    rw [h0]
-    rfl
-  · rfl
+    exact tombE_append_none _ now (by simpa using h)
 
 /-! ### a whole exported tree, node after node -/
 /-- what ImportNodes sends for one node: exported rows, an id, a type, a parent that is neither blank, "none", "root"
